@@ -265,7 +265,7 @@ fn prepare(c: &BrCase, c10: bool) -> Option<Prep> {
 // ------------------------------------------------------------------------------------------
 // a trailing "+" = the same instruction with one extra byte appended to its data (Anchor ignores
 // trailing bytes, so it dispatches identically; validators that compare whole data would not)
-pub const C10_SYMS: &[&str] = &["cb", "sA", "sV", "eA", "eV", "wA", "rA", "bA", "dA", "irW", "kr", "js", "sd", "un", "fsA", "feA", "p:sA", "p:eA", "p:wA", "p:rA", "wBig", "sA+", "sV+", "eA+", "eA0", "sA1", "sA2", "sdF", "edF", "rAllA", "eAx", "weA", "seA", "phA", "acr"];
+pub const C10_SYMS: &[&str] = &["cb", "sA", "sV", "eA", "eV", "wA", "rA", "bA", "dA", "irW", "kr", "js", "sd", "un", "fsA", "feA", "p:sA", "p:eA", "p:wA", "p:rA", "wBig", "sA+", "sV+", "eA+", "eA0", "sA1", "sA2", "sdF", "edF", "rAllA", "eAx", "weA", "seA", "phA", "acr", "sA3", "eA3"];
 // "feV&A" = end for account V with account U appended as a trailing (ignored) remaining account;
 // "feA0" / "feA1" = a genuine end for U whose observation accounts are missing altogether / lack the borrowed bank
 // (the risk engine cannot be built: the end must fail, never pass unchecked)
@@ -327,6 +327,21 @@ fn build_ix(p: &Prep, sym: &str) -> Instruction {
             let glen = w.risk_metas_for_bank(&ckey).len();
             if let Some(pos) = ix.accounts.iter().rposition(|m| m.pubkey == ckey) {
                 ix.accounts.splice(pos..(pos + glen).min(ix.accounts.len()), w.risk_metas_for_bank(&w.banks[lb].key));
+            }
+            ix
+        }
+        // genuine start / end for U whose observation accounts show the DEBT bank's (authentic, fresh) oracle in the
+        // collateral bank's oracle slot: the collateral cannot be priced, so the assessment must fail — never go on with
+        // that collateral counted as nothing
+        "sA3" | "eA3" => {
+            let mut ix = if sym == "sA3" { w.ix_start_liquidation(ua, p.l.auth) } else { w.ix_end_liquidation(ua, p.l.auth, w.risk_metas(&ua, None, None)) };
+            let (from, to) = (w.banks[ab].oracle_key, w.banks[lb].oracle_key);
+            if from != to {
+                for m in ix.accounts.iter_mut() {
+                    if m.pubkey == from {
+                        m.pubkey = to;
+                    }
+                }
             }
             ix
         }
@@ -459,10 +474,10 @@ fn in_c10_language(shape: &[&str]) -> bool {
     while i < shape.len() && is_pre(shape[i]) {
         i += 1;
     }
-    if i >= shape.len() || !(shape[i] == "sA" || shape[i] == "sA+" || shape[i] == "sA1" || shape[i] == "sA2") {
+    if i >= shape.len() || !(shape[i] == "sA" || shape[i] == "sA+" || shape[i] == "sA1" || shape[i] == "sA2" || shape[i] == "sA3") {
         return false;
     }
-    if !matches!(*shape.last().unwrap(), "eA" | "eA+" | "eA0" | "eAx") {
+    if !matches!(*shape.last().unwrap(), "eA" | "eA+" | "eA0" | "eAx" | "eA3") {
         return false;
     }
     for s in &shape[i + 1..shape.len() - 1] {
@@ -489,6 +504,7 @@ pub struct Stats {
     pub skipped_health_checks: u64,
     pub premium_frontier: (u64, u64),
     pub prepared: bool,
+    pub hostile_oracle_probes: u64,
     pub samples: Vec<Value>,
 }
 
@@ -745,9 +761,43 @@ fn sweep_amounts(p: &Prep, c: &BrCase, stats: &mut Stats, shard: Option<(usize, 
     Ok(())
 }
 
+/// Directed probes in every prepared world (C10): brackets whose start / end are presented with a foreign oracle in the
+/// collateral bank's slot, on the world as it is and on a copy where the admin has set the collateral bank reduce-only
+/// (its deposits "still count for liquidation purposes"). Whatever commits is judged by the same clauses as any shape.
+fn hostile_oracle_probes(p: &Prep, c: &BrCase, stats: &mut Stats) -> Result<(), (String, Vec<u8>, String)> {
+    let idx = |name: &str| C10_SYMS.iter().position(|s| *s == name).unwrap_or(0) as u8;
+    let shapes: [&[&'static str]; 7] = [&["sA3", "eA3"], &["sA3", "wA", "eA3"], &["sA3", "wA", "rA", "eA3"], &["sA3", "rA", "eA3"], &["sA3", "wA", "rA", "eA"], &["sA", "wA", "rA", "eA3"], &["sA3", "wBig", "eA3"]];
+    for reduce_only in [false, true] {
+        let mut p2 = p.clone();
+        if reduce_only {
+            let mut o = marginfi_type_crate::types::BankConfigOpt::default();
+            o.operational_state = Some(marginfi_type_crate::types::BankOperationalState::ReduceOnly);
+            let ix = p2.w.ix_configure_bank(0, o, p2.w.roles.admin);
+            if p2.w.vm.exec(&ix).is_err() {
+                continue;
+            }
+        }
+        for sh in shapes.iter() {
+            stats.hostile_oracle_probes += 1;
+            // replay encoding: a trailing 255 = "the admin sets the collateral bank reduce-only first"
+            check_c10(&p2, sh, c, stats).map_err(|(sig, msg)| {
+                let mut v = sh.iter().map(|s| idx(s)).collect::<Vec<u8>>();
+                if reduce_only {
+                    v.push(255);
+                }
+                (sig, v, format!("{msg} [collateral bank reduce-only: {reduce_only}]"))
+            })?;
+        }
+    }
+    Ok(())
+}
+
 pub fn run_case(c: &BrCase, c10: bool, stats: &mut Stats, shard: Option<(usize, usize)>) -> Result<(), (String, Vec<u8>, String)> {
     let Some(p) = prepare(c, c10) else { return Ok(()) };
     stats.prepared = true;
+    if c10 && c.shapes.is_empty() && shard.map(|(i, _)| i == 0).unwrap_or(true) {
+        hostile_oracle_probes(&p, c, stats)?;
+    }
     if c.max_len == 0 {
         // sweep-only world: just the amount sweep inside the well-formed bracket
         return sweep_amounts(&p, c, stats, shard);
@@ -760,6 +810,16 @@ pub fn run_case(c: &BrCase, c10: bool, stats: &mut Stats, shard: Option<(usize, 
     };
     if !c.shapes.is_empty() {
         for s in &c.shapes {
+            if c10 && s.last() == Some(&255) {
+                let mut p2 = p.clone();
+                let mut o = marginfi_type_crate::types::BankConfigOpt::default();
+                o.operational_state = Some(marginfi_type_crate::types::BankOperationalState::ReduceOnly);
+                let ix = p2.w.ix_configure_bank(0, o, p2.w.roles.admin);
+                let _ = p2.w.vm.exec(&ix);
+                let names = shape_strs(alpha, &s[..s.len() - 1]);
+                check_c10(&p2, &names, c, stats).map_err(|(sig, msg)| (sig, s.to_vec(), msg))?;
+                continue;
+            }
             check(s, stats)?;
         }
         return Ok(());
@@ -894,6 +954,7 @@ pub fn run(ctx: &Ctx, c10: bool) -> Report {
             let r = run_case(c, c10, &mut st, None);
             rep.evaluations += st.shapes;
             rep.add_extra("sweep_worlds", st.prepared as u64);
+            rep.add_extra("hostile_oracle_bracket_probes", st.hostile_oracle_probes);
             rep.add_extra("amount_sweep_committed", st.premium_frontier.0);
             rep.add_extra("amount_sweep_rejected", st.premium_frontier.1);
             rep.add_extra("committed_with_third_party_control", st.committed_with_control);
@@ -914,6 +975,7 @@ pub fn run(ctx: &Ctx, c10: bool) -> Report {
             rep.add_extra("committed", st.committed);
             rep.add_extra("committed_with_third_party_control", st.committed_with_control);
             rep.add_extra("in_language", st.in_language);
+            rep.add_extra("hostile_oracle_bracket_probes", st.hostile_oracle_probes);
             rep.add_extra("committed_with_inner_withdraw_or_repay_via_cpi(counted,not asserted)", st.cpi_inner);
             rep.add_extra("skipped_health_checks_committed", st.skipped_health_checks);
             rep.add_extra("amount_sweep_committed", st.premium_frontier.0);
